@@ -14,8 +14,8 @@ The model receives the nodes **in the walk order taken from the observation** (t
 produce is not a function of the case); the spec verdict never looks at that order.
 
 Second family (first field `pkg`): the real `cargo libcnb package` executable on a generated workspace.
-fields: `pkg`, buildpacks `id>K>dir>dep,dep|…` (`K` = `L` libcnb.rs / `C` composite, `dir` relative to the workspace
-root, `.` = the root), invocation directories `dir;dir;…` (one run of the executable per entry).
+fields: `pkg`, buildpacks `id>K>dir>dep,dep|…` (`K` = `L` libcnb.rs / `C` composite / `S` composite whose directory
+entry is a symbolic link to a directory outside the workspace, `dir` relative to the workspace root, `.` = the root), invocation directories `dir;dir;…` (one run of the executable per entry).
 observation: `walk=<ids in directory-walk order>;<result>|<result>|…`, one result per invocation directory:
 `<ids in the order of the "[n/m] Building <id>" progress lines, - if none>:<ok | err:<kind>>`.
 The model's result is `packagingOrder` (Model/DepGraph.lean) on the buildpacks in walk order; the verdict applies the
@@ -111,8 +111,13 @@ def distinct : List String → Bool
 
 def parseLocated (s : String) : Option Located :=
   match s.splitOn ">" with
-  | [i, k, d, ds] => if i = "" || d = "" || !(k = "L" || k = "C") then none else some ⟨⟨i, splitList ds ","⟩, d⟩
+  | [i, k, d, ds] => if i = "" || d = "" || !(k = "L" || k = "C" || k = "S") || (k = "S" && d = ".") then none else some ⟨⟨i, splitList ds ","⟩, d⟩
   | _ => none
+
+/-- directories of the buildpacks of kind `S` (a composite whose directory entry is a symbolic link to a directory
+outside the workspace): a buildpack of the workspace like any other; the tool is never invoked from inside one -/
+def linkedDirs (s : String) : List String :=
+  (splitList s "|").filterMap (fun b => match b.splitOn ">" with | [_, "S", d, _] => some d | _ => none)
 
 def parseLocatedAll (s : String) : Option (List Located) := allSome ((splitList s "|").map parseLocated)
 
@@ -169,11 +174,13 @@ def pkgJudgeAll (bps : List Located) : List String → List String → Option St
     | none => pkgJudgeAll bps is rs
   | _, _ => some "number of results differs from the number of invocations"
 
-def pkgVerdict (bps : List Located) (invs : List String) (body : String) : String :=
+def pkgVerdict (bps : List Located) (walk : List String) (invs : List String) (body : String) : String :=
   let nodes := bps.map (·.node)
   let ids := nodes.map (·.id)
   let results := body.splitOn "|"
   let dangling := nodes.flatMap (fun nd => nd.deps.filter (fun d => !ids.contains d))
+  -- the buildpack directories found are the buildpacks of the workspace (directory or link to one), none dropped
+  if let some w := Topo.nodeSetWhyNot ids walk id then "fail:" ++ w else
   if !dangling.isEmpty then
     if results.length = invs.length && results.all (fun r => r = "-:err:missing-dep") then "ok"
     else "fail:dependency on unknown buildpack " ++ dangling.headD "" ++ " was not reported (or something was packaged): " ++ body
@@ -187,16 +194,74 @@ def handlePkg (bs is : String) (obs : String) : String × String :=
   | none => ("bad-op", "bad-op")
   | some bps =>
     let invs := splitList is ";"
-    if !distinct (bps.map (·.node.id)) || !distinct (bps.map (·.dir)) || invs.isEmpty || invs.any (· = "") then ("bad-op", "bad-op") else
+    let linked := linkedDirs bs
+    if !distinct (bps.map (·.node.id)) || !distinct (bps.map (·.dir)) || invs.isEmpty || invs.any (· = "") ||
+        invs.any (fun i => linked.any (fun d => i = d || i.startsWith (d ++ "/"))) then ("bad-op", "bad-op") else
     if obs.startsWith "walk=" then
       match ((obs.drop 5).toString).splitOn ";" with
-      | [w, body] => (pkgModel bps (splitList w ",") invs, pkgVerdict bps invs body)
+      | [w, body] => (pkgModel bps (splitList w ",") invs, pkgVerdict bps (splitList w ",") invs body)
+      | _ => ("unparsable-observation", "fail:unparsable-observation")
+    else ("no-walk", "fail:" ++ obs)
+
+/-! ### the `lnk` family: buildpack directories reached through symbolic links
+
+fields: `lnk`, buildpacks `id>H>dep,dep|…` (`H`: `d` `n` real directory, `a` `r` `R` link, `c` `C` chain of two links,
+`t` real directory whose files are links, `i` below an intermediate directory that is a link), selections
+`a,b;c;-`, noise `0`/`1` (harness only). Observation as in the first family. The buildpacks of the workspace are all
+but the `i` ones; the verdict first requires the node set found to be exactly those (`Topo.nodeSetWhyNot`), then
+judges as in the first family — a dependency on an `i` buildpack is a dangling one. -/
+
+def parsePlaced (s : String) : Option Placed :=
+  match s.splitOn ">" with
+  | [i, h, ds] =>
+    if i = "" then none else
+    let nd : Node := ⟨i, splitList ds ","⟩
+    if h = "d" || h = "n" || h = "t" then some ⟨nd, .dir⟩
+    else if h = "a" || h = "r" || h = "R" then some ⟨nd, .link 0⟩
+    else if h = "c" || h = "C" then some ⟨nd, .link 1⟩
+    else if h = "i" then some ⟨nd, .viaLinkedDir⟩
+    else none
+  | _ => none
+
+def parsePlacedAll (s : String) : Option (List Placed) := allSome ((splitList s "|").map parsePlaced)
+
+/-- the buildpacks of the workspace, read off the case (not through the model's `discover`) -/
+def inWorkspace (ps : List Placed) : List Node :=
+  ps.filterMap (fun p => match p.reach with | .viaLinkedDir => none | _ => some p.node)
+
+/-- the model's nodes are `discover ps`; the observed walk only supplies their order (when it is an arrangement of
+exactly those nodes — else the model keeps the written order and the observations differ) -/
+def lnkModel (ps : List Placed) (walk : List String) (selections : List (List String)) : String :=
+  let nodes := discover ps
+  let ids := nodes.map (·.id)
+  let w := if walk.length = ids.length && ids.all (fun x => walk.contains x) then walk else ids
+  model nodes w selections
+
+def lnkVerdict (ps : List Placed) (walk : List String) (selections : List (List String)) (body : String) : String :=
+  let nodes := inWorkspace ps
+  match Topo.nodeSetWhyNot (nodes.map (·.id)) walk id with
+  | some w => "fail:" ++ w
+  | none => verdict nodes walk selections body
+
+def handleLnk (ns ss noise : String) (obs : String) : String × String :=
+  if !(noise = "0" || noise = "1") then ("bad-op", "bad-op") else
+  match parsePlacedAll ns with
+  | none => ("bad-op", "bad-op")
+  | some ps =>
+    if !distinct (ps.map (·.node.id)) then ("bad-op", "bad-op") else
+    let selections := (ss.splitOn ";").map (fun sel => splitList sel ",")
+    if obs.startsWith "walk=" then
+      match ((obs.drop 5).toString).splitOn ";" with
+      | [w, body] =>
+        let walk := splitList w ","
+        (lnkModel ps walk selections, lnkVerdict ps walk selections body)
       | _ => ("unparsable-observation", "fail:unparsable-observation")
     else ("no-walk", "fail:" ++ obs)
 
 def handle (fields : List String) (obs : String) : String × String :=
   match fields with
   | ["pkg", bs, is] => handlePkg bs is obs
+  | ["lnk", ns, ss, noise] => handleLnk ns ss noise obs
   | [ns, rs, layout] =>
     if layout.toNat?.isNone then ("bad-op", "bad-op") else
     match parseNodes ns with
